@@ -5,13 +5,14 @@ KEY = "keyed/inner-not-bottom-preserving"
 
 
 class C07(vlib.Spec):
-    model_vo = ["theories/Lattice/Morph.vo"]
+    model_vo = ["theories/Lattice/Morph.vo", "theories/Lattice/MorphGHT.vo"]
     props_vo = "theories/Props/C07.vo"
     theorems = ["C07_distributes", "C07_respects_eq", "C07_keyed_parametric", "C07_keyed_towers",
                 "C07_cartesian_is_product", "C07_keyed_pair_refuted", "C07_keyed_fixed_parametric",
-                "C07_fixed_all_shapes", "C07_holds_b_sound"]
+                "C07_fixed_all_shapes", "C07_ght_cartesian", "C07_ght_valtype_product",
+                "C07_ght_deep_join_rows_partial", "C07_ght_inputs_wf", "C07_holds_b_sound"]
     crate, group, binary = "h_morph", "light", "h_morph"
-    imports = "From HV Require Import Lattice.Univ Lattice.Morph."
+    imports = "From HV Require Import Lattice.MorphGHT.\nFrom HV Require Import Lattice.Univ Lattice.Morph."
     trusted_base = ["coqc 8.16.1 kernel (vm_compute used for case evaluation only)",
                     "hand-written Gallina model coq/theories/Lattice/{Model,Univ,Morph}.v",
                     "correspondence harness harness/h_morph + tools/morph.py + tools/lat.py"]
@@ -19,22 +20,33 @@ class C07(vlib.Spec):
                    "hash/btree iteration order abstracted by sorting outputs",
                    "tuples of the cartesian product are encoded into N by the Cantor pairing (proved injective) "
                    "on both sides",
-                   "NOT covered: the GHT bimorphisms of lattices/src/ght/lattice.rs "
-                   "(GhtCartesianProduct/GhtValTypeProduct/GhtKeyed/GhtNodeKeyed/DeepJoin)"]
+                   "GHT bimorphisms on e2-coll's trie model (Coll/ModelGHT.v): GhtCartesianProduct and GhtValTypeProduct "
+                   "proved with the crate's ==; DeepJoin/GhtNodeKeyed towers proved up to the set of rows only "
+                   "(C07_ght_deep_join_rows_partial) -- their == is checked on the implementation, not proved"]
     explanation = ("CartesianProductBimorphism, KeyedBimorphism (parametric in the wrapped bimorphism; every "
                    "Keyed^n<Cartesian> tower by induction on the shape) and PairBimorphism are proved to distribute "
-                   "over merge in each argument on the model; the GHT bimorphisms are not modelled; "
-                   "KeyedBimorphism<_, PairBimorphism> is refuted (finding).")
+                   "over merge in each argument on the model; GHT cartesian / value-type product likewise; the GHT deep join "
+                   "(node-keyed towers) is proved to distribute up to the set of rows only (_rows_partial: the == of "
+                   "join outputs with empty children is finer than row equality and is only checked on the "
+                   "implementation); KeyedBimorphism<_, PairBimorphism> is refuted (finding); the proposed repair "
+                   "keyed_fixed is proved a bimorphism for any wrapped bimorphism.")
     rule = ("one case = (bimorphism instance, a, da, b, db) for 17 registered instances of 6 shapes; da/db random "
-            "perturbations of a/b, sprinkled with bottom-valued map entries; non-trivial = a delta changes the output")
+            "perturbations of a/b, sprinkled with bottom-valued map entries; plus GHT cases: 6 GhtType! shapes x "
+            "{deep join, cartesian product} on row sets over small key domains; non-trivial = a delta changes the output")
 
     def types(self):
         if not hasattr(self, "_types"):
             self._types = vlib.run_harness(self.ctx, self.bin, [{"k": "types"}], name="types")[0]
         return self._types
 
+    def ght_shapes(self):
+        if not hasattr(self, "_gshapes"):
+            self._gshapes = vlib.run_harness(self.ctx, self.bin, [{"k": "ght_shapes"}], name="gshapes")[0]
+        return self._gshapes
+
     def gen(self, rng, tier, n):
-        return morph.gen_cases(rng, self.types(), tier, n)
+        cases = morph.gen_cases(rng, self.types(), tier, n)
+        return cases + morph.gen_ght_cases(rng, self.ght_shapes(), tier, n // 3)
 
     def n_cases(self, tier):
         return 850 if tier == "quick" else 6800
@@ -51,7 +63,7 @@ class C07(vlib.Spec):
         return res["l"] != res["ab"] or res["r"] != res["ab"]
 
     def finding_key(self, case, res):
-        if "ab" not in res:
+        if "ab" not in res or case.get("k") == "ght":
             return None
         sh, ta, tb = morph.parse_name(case["sh"])
         if not morph.keyed_over_pair(sh):
